@@ -63,6 +63,7 @@ using ref::Mat;
 // Switches to steer the generator away from input classes with known defects (default: off, see final report)
 // (all off by default; an environment variable of the same name, prefixed by C15_, switches one on for a development run)
 static const bool AVOID_OUTSIDE_GRID_POINTS = getenv("C15_AVOID_OUTSIDE_GRID_POINTS") != nullptr; // ProjMatrix: samples outside the grid / trailing outside samples
+static const bool AVOID_LOGLIK_CG_NO_DATUM_IN_MESH = getenv("C15_AVOID_LOGLIK_CG_NO_DATUM_IN_MESH") != nullptr; // null APolynomial call in PrecisionOp::getRangeEigenVal
 static const bool AVOID_KRIGNEW_TARGET_WITHOUT_Z = getenv("C15_AVOID_KRIGNEW_TARGET_WITHOUT_Z") != nullptr; // krigingSPDENew aborts (Eigen assertion) when the target Db has no Z variable
 
 enum MeshKind { MK_TURBO = 0, MK_TURBO_MASK, MK_STD_EXT, MK_STD_FROM_TURBO, MK_TURBO_COVA, NMK };
@@ -842,11 +843,10 @@ static void checkConditional(Rng& r, Ctx& c, const MeshCase& mc, const std::vect
     for (int k = 0; k < nc; k++) for (int d = 0; d < ndim; d++) p[d] += w[k] / sw * mm.x(mm.apex(e, k), d);
     return p;
   };
-  // ---- data: inside / on a vertex / outside the bounding box (never outside for turbo meshes: the row-shift defect of (c)
-  //      would only make both modes equally wrong, it is not what is decided here) -------------------------------------
+  // ---- data: inside / on a vertex / outside the bounding box of the mesh (any mesh kind, any position in the Db, the last
+  //      sample included: the projection defects which forbade this in round 1 are fixed) ---------------------------------
   int nd = r.irange(1, c.thorough() ? 60 : 30);
   std::vector<std::vector<double>> dpts;
-  bool turbo = dynamic_cast<const MeshETurbo*>(mc.mesh.get()) != nullptr;
   int nOutData = 0;
   for (int i = 0; i < nd; i++)
   {
@@ -858,7 +858,7 @@ static void checkConditional(Rng& r, Ctx& c, const MeshCase& mc, const std::vect
       for (int d = 0; d < ndim; d++) p[d] = mm.x(v, d);
       dpts.push_back(p);
     }
-    else if (u < 0.2 && !turbo && !AVOID_OUTSIDE_GRID_POINTS)
+    else if (u < 0.2 && !AVOID_OUTSIDE_GRID_POINTS)
     {
       std::vector<double> p = insidePoint();
       int d0 = r.irange(0, ndim - 1);
@@ -868,7 +868,7 @@ static void checkConditional(Rng& r, Ctx& c, const MeshCase& mc, const std::vect
     }
     else dpts.push_back(insidePoint());
   }
-  dpts.back() = insidePoint(); // keep the last sample strictly inside (MeshEStandard drops trailing empty rows: see (c))
+  if (AVOID_OUTSIDE_GRID_POINTS) dpts.back() = insidePoint();
   int zclass = r.irange(0, 2); // data magnitude classes: the iterative solver's stopping rule is not scale invariant
   double zscale = std::sqrt(totalSill) * (zclass == 0 ? r.loguni(1e-4, 1e-2) : zclass == 1 ? r.uni(0.5, 2.) : r.loguni(1e2, 1e4));
   std::vector<double> z(nd);
@@ -888,8 +888,8 @@ static void checkConditional(Rng& r, Ctx& c, const MeshCase& mc, const std::vect
     bool anyMasked = false;
     for (int i = 0; i <= nd; i++)
     {
-      // insert extras at random positions (never after the last genuine sample: see the standard-mesh row defect of (c))
-      while (placed < extras && (i == nd ? false : r.coin(0.3)))
+      // insert extras at random positions, after the last genuine sample included
+      while (placed < extras && r.coin(0.3))
       {
         bool masked = r.coin();
         allp.push_back(insidePoint());
@@ -1280,7 +1280,8 @@ static void checkConditional(Rng& r, Ctx& c, const MeshCase& mc, const std::vect
     // PrecisionOpMultiConditional::computeLogDetOp / PrecisionOp::getLogDeterminant): agreement is only required within
     // 6 Monte-Carlo standard deviations sqrt(2 ||log M||_F^2 / nbsimu) for M = A and M = P_k(S_k)  [+ the CG bound on the quadratic term]
     // (each call fits two Chebychev series through 2^20-point FFTs: ~ seconds under ASan, hence a third of the eligible cases)
-    if (N <= 60 && r.coin(c.thorough() ? 0.5 : 0.35))
+    // (not when the right-hand side is zero, i.e. no datum inside the mesh: that input is isolated in scenarioNoDatumInMesh)
+    if (N <= 60 && r.coin(c.thorough() ? 0.5 : 0.35) && bnorm > 0)
     {
       int nbsimu = 20;
       double ll0 = logLikelihoodSPDE(dbin.get(), model.get(), nullptr, mc.mesh.get(), 0, nbsimu, SPDEParam(), false);
@@ -1351,9 +1352,66 @@ static void scenarioTargetWithoutZ(Rng& r, Ctx& c)
   c.check("krignew-target-without-Z", "C15:krigingSPDENew:target-db-without-Z-variable", ok && e <= 1e-9 * (1 + sc), e, 1e-9 * (1 + sc), fmt("size=%d nt=%d", (int)est.size(), nt));
 }
 
+// Dedicated scenario (3 % of the cases, isolated because the matrix-free call dies in this build): likelihood of data none of which
+// falls in the mesh. Then A'z = 0, the conditional system is solved by x = 0 without a single operator application, Sigma = s2 I and
+//   log L = -0.5 (nd log s2 + z'z / s2 + nd log 2 pi)         (s2 = max(nugget, 0.01 sill), SPDE::_init)
+// exactly. Cholesky mode: compared with that closed form. Matrix-free mode: PrecisionOpMultiConditional::computeLogDetOp ->
+// preparePoly -> rangeEigenValQ -> PrecisionOp::getRangeEigenVal uses _polynomials[EPowerPT::ONE] which nothing has created
+// (no evalDirect was needed) -> member call on a null APolynomial (UBSan), segfault otherwise. If it returns, it is compared with the
+// closed form within the Monte-Carlo error of the two trace estimates, as in the main scenario.
+static void scenarioNoDatumInMesh(Rng& r, Ctx& c)
+{
+  int ndim = r.irange(1, 2);
+  defineDefaultSpace(ESpaceType::RN, ndim);
+  c.setSig(fmt("loglik-no-datum-in-mesh:ndim=%d", ndim));
+  VectorInt nx(ndim);
+  VectorDouble dx(ndim), x0(ndim);
+  for (int d = 0; d < ndim; d++) { nx[d] = r.irange(3, 6); dx[d] = r.uni(0.5, 2.); x0[d] = r.uni(-5, 5); }
+  std::unique_ptr<MeshETurbo> mesh(MeshETurbo::create(nx, dx, x0));
+  SpaceRN space(ndim);
+  double sill = r.uni(0.5, 2.);
+  std::unique_ptr<Model> model(Model::createFromParam(ECov::MATERN, r.uni(1., 4.), sill, ndim == 2 ? 1. : 0.5, VectorDouble(), VectorDouble(),
+                                                      VectorDouble(), &space, true));
+  int nd = r.irange(1, 4);
+  std::vector<std::vector<double>> dp;
+  std::vector<double> z(nd);
+  LD zz = 0;
+  for (int i = 0; i < nd; i++)
+  {
+    std::vector<double> p(ndim);
+    for (int d = 0; d < ndim; d++) p[d] = x0[d] + dx[d] * (nx[d] - 1) * (1.5 + r.uni(0, 3.)); // beyond the far corner of the grid
+    dp.push_back(p);
+    z[i] = r.normal();
+    zz += (LD)z[i] * (LD)z[i];
+  }
+  std::unique_ptr<Db> dbin = makeDb(ndim, dp, &z);
+  double s2 = 1e-2 * sill;
+  LD llRef = -0.5L * (nd * std::log((LD)s2) + zz / (LD)s2 + nd * std::log(2 * (LD)M_PI));
+  double ll1 = logLikelihoodSPDE(dbin.get(), model.get(), nullptr, mesh.get(), 1, 1, SPDEParam(), false);
+  c.close("loglik-nodatum-chol", "C15:logLikelihoodSPDE:no-datum-in-mesh:chol-vs-closed-form", ll1, (double)llRef, 1e-9 * (1 + std::fabs((double)llRef)));
+  c.probe("loglik.cg.no-datum-in-mesh");
+  // Monte-Carlo scale of the two trace estimates (both of log P(S) here since A = Q): eigenvalues of Lambda^-1 Q Lambda^-1
+  PrecisionOpCs qcs(mesh.get(), model->getCova(0), false);
+  if (qcs.getQ() == nullptr) { c.skip("no-datum:Q-null"); return; }
+  int n = qcs.getSize();
+  Mat Qn = dense(mirror(qcs.getQ()));
+  std::vector<double> lam = qcs.getShiftOp()->getLambdas().getVector();
+  for (int i = 0; i < n; i++) for (int j = 0; j < n; j++) Qn(i, j) /= (LD)lam[i] * (LD)lam[j];
+  for (int i = 0; i < n; i++) for (int j = 0; j < i; j++) { LD v = 0.5 * (Qn(i, j) + Qn(j, i)); Qn(i, j) = Qn(j, i) = v; }
+  LD fP = 0;
+  for (LD v : ref::eigsym(Qn)) fP += std::log(v) * std::log(v);
+  int nbsimu = 20;
+  law_set_random_seed(4321 + (int)(r.next() % 100000));
+  double ll0 = logLikelihoodSPDE(dbin.get(), model.get(), nullptr, mesh.get(), 0, nbsimu, SPDEParam(), false); // dies here in this build
+  double tolMC = 0.5 * 6 * 2 * (double)std::sqrt(2 * fP / nbsimu) + 1e-3 * (1 + std::fabs((double)llRef));
+  c.check("loglik-nodatum-cg", "C15:logLikelihoodSPDE:no-datum-in-mesh:cg-vs-closed-form", std::isfinite(ll0) && std::fabs(ll0 - (double)llRef) <= tolMC,
+          std::fabs(ll0 - (double)llRef), tolMC, fmt("cg=%.10g closed form=%.10g chol=%.10g", ll0, (double)llRef, ll1));
+}
+
 static void run_case(Rng& r, Ctx& c)
 {
   if (!AVOID_KRIGNEW_TARGET_WITHOUT_Z && r.coin(0.04)) { scenarioTargetWithoutZ(r, c); return; }
+  if (!AVOID_LOGLIK_CG_NO_DATUM_IN_MESH && r.coin(0.03)) { scenarioNoDatumInMesh(r, c); return; }
   // ---- 1. mesh, model -----------------------------------------------------------------------------
   int ndimPeek;
   {
